@@ -94,7 +94,18 @@ def stft_cfg(rng, bank=None, fl=None, fs=None, allow_fs_gt_fl=False):
         "use_power": bool(rng.random() < 0.5),
         "kaldi_shift": bool(rng.random() < (0.4 if style == "centered" else 0.25)),
     }
+    _defaults(rng, cfg)
     return cfg
+
+
+def _defaults(rng, cfg):
+    """leave the window and / or the frame style to their documented defaults now and then (the default window
+    follows the resolved frame style, the default style follows the bank's phase)"""
+    r = rng.random()
+    if r < 0.2:
+        del cfg["window_function"]
+    if 0.1 <= r < 0.3:
+        del cfg["frame_style"]
 
 
 def si_cfg(rng, bank=None, fs=None):
@@ -112,6 +123,7 @@ def si_cfg(rng, bank=None, fs=None):
         "use_log": bool(rng.random() < 0.5),
         "use_power": bool(rng.random() < 0.5),
     }
+    _defaults(rng, cfg)
     return cfg
 
 
